@@ -161,7 +161,8 @@ pub async fn client_entrypoint(
                         }
 
                         let result = client.handle().await;
-                        crate::vtrace!("handle_done", "pid" => client.verif_pid(), "ok" => result.is_ok());
+                        crate::vtrace!("handle_done", "pid" => client.verif_pid(), "ok" => result.is_ok(),
+                            "admin" => client.is_admin());
 
                         if !client.is_admin() {
                             let _ = drain.send(-1).await;
@@ -214,7 +215,8 @@ pub async fn client_entrypoint(
                                 }
 
                                 let result = client.handle().await;
-                        crate::vtrace!("handle_done", "pid" => client.verif_pid(), "ok" => result.is_ok());
+                        crate::vtrace!("handle_done", "pid" => client.verif_pid(), "ok" => result.is_ok(),
+                            "admin" => client.is_admin());
 
                                 if !client.is_admin() {
                                     let _ = drain.send(-1).await;
@@ -269,7 +271,8 @@ pub async fn client_entrypoint(
                     }
 
                     let result = client.handle().await;
-                        crate::vtrace!("handle_done", "pid" => client.verif_pid(), "ok" => result.is_ok());
+                        crate::vtrace!("handle_done", "pid" => client.verif_pid(), "ok" => result.is_ok(),
+                            "admin" => client.is_admin());
 
                     if !client.is_admin() {
                         let _ = drain.send(-1).await;
@@ -299,7 +302,8 @@ pub async fn client_entrypoint(
                     }
 
                     let result = client.handle().await;
-                        crate::vtrace!("handle_done", "pid" => client.verif_pid(), "ok" => result.is_ok());
+                        crate::vtrace!("handle_done", "pid" => client.verif_pid(), "ok" => result.is_ok(),
+                            "admin" => client.is_admin());
 
                     if !client.is_admin() {
                         let _ = drain.send(-1).await;
@@ -2134,7 +2138,8 @@ impl<S, T> Drop for Client<S, T> {
     fn drop(&mut self) {
         let mut guard = self.client_server_map.lock();
         guard.remove(&(self.process_id, self.secret_key));
-        crate::vtrace!("client_drop", "pid" => self.process_id, "connected" => self.connected_to_server);
+        crate::vtrace!("client_drop", "pid" => self.process_id, "connected" => self.connected_to_server,
+            "cancel" => self.cancel_mode);
 
         // Dirty shutdown
         // TODO: refactor, this is not the best way to handle state management.
